@@ -409,6 +409,8 @@ pub enum Bad {
     QuicModeWithoutSection(bool),
     /// a quic (or ssl) section whose certificate file does not exist: that listener cannot start
     MissingCertificate { quic: bool },
+    /// a shadowsocks entry without any `cipher` field (the protocol has no default cipher); `mode` 0..6 picks the server mode
+    NoCipher(u8),
 }
 
 #[derive(Clone, Debug, Serialize, Deserialize)]
@@ -473,6 +475,7 @@ impl SubCheck for Refusals {
             4 => (proptest::sample::select(C22::ALL.to_vec()), 0u8..=64, 0u8..3).prop_map(|(cipher, len, place)| Bad::KeyLen { cipher, len, place }),
             1 => any::<bool>().prop_map(Bad::QuicModeWithoutSection),
             1 => any::<bool>().prop_map(|quic| Bad::MissingCertificate { quic }),
+            1 => (0u8..6).prop_map(Bad::NoCipher),
         ];
         (bad, 0u8..3, any::<bool>(), 1u64..1_000_000).prop_map(|(bad, proto, server, seed)| BadCase { bad, proto, server, seed }).boxed()
     }
@@ -554,6 +557,27 @@ impl SubCheck for Refusals {
                 what = format!("{} server whose {} section names a certificate file that does not exist", base.protocol_name(), sect);
                 out.label("bad:missing-certificate");
             }
+            Bad::NoCipher(mode) => {
+                spec.proto = Proto::Ss22(C22::Aes128);
+                cred = spec.cred();
+                let m = [None, Some("tcp"), Some("udp"), Some("tcp_and_udp"), Some("quic"), Some("tcp_and_quic")][*mode as usize % 6];
+                let mut sq = spec.clone();
+                if matches!(m, Some("quic") | Some("tcp_and_quic")) {
+                    sq.transport = Transport::Quic;
+                }
+                sdoc = server_entry(&sq, &cred, port);
+                sdoc.as_object_mut().unwrap().remove("cipher");
+                match m {
+                    Some(m) => sdoc["mode"] = json!(m),
+                    None => {
+                        sdoc.as_object_mut().unwrap().remove("mode");
+                    }
+                }
+                cdoc = client_doc(&spec, &cred, lp, port);
+                cdoc["servers"][0].as_object_mut().unwrap().remove("cipher");
+                what = format!("shadowsocks {} entry without a cipher field (mode {:?})", if c.server { "server" } else { "client" }, m);
+                out.label("bad:no-cipher-field");
+            }
             Bad::KeyLen { cipher, len, place } => {
                 if *len as usize == cipher.key_len() {
                     return out;
@@ -619,7 +643,7 @@ impl SubCheck for Refusals {
         match verdict {
             Err((tcp, udp)) => {
                 out.fail(
-                    format!("refusals/{}/bad-value-not-refused/{}", if c.server { "server" } else { "client" }, match &c.bad { Bad::Cipher(_) => "cipher", Bad::Protocol(_) => "protocol", Bad::Mode(_) => "mode", Bad::KeyLen { .. } => "key-length", Bad::QuicModeWithoutSection(_) => "quic-mode-without-section", Bad::MissingCertificate { .. } => "missing-certificate" }),
+                    format!("refusals/{}/bad-value-not-refused/{}", if c.server { "server" } else { "client" }, match &c.bad { Bad::Cipher(_) => "cipher", Bad::Protocol(_) => "protocol", Bad::Mode(_) => "mode", Bad::KeyLen { .. } => "key-length", Bad::QuicModeWithoutSection(_) => "quic-mode-without-section", Bad::MissingCertificate { .. } => "missing-certificate", Bad::NoCipher(_) => "no-cipher-field" }),
                     format!("{}: {:?} after start-up the process is still running and holds its port (tcp listener: {}, udp socket: {}) instead of having stopped with an error\n{}", what, max, tcp, udp, p.proc.log_tail(6)),
                 );
             }
